@@ -270,6 +270,38 @@ def run_fault(scn, seed, plan=None, fault_mode=False, recover_rounds=None, debug
     return tr
 
 
+def run_cancel_quiet(scn, seed, k, after=(), debug=False, complete_ids=False):
+    """cancel-jobs at a quiet moment: all batches have ended, the submission is incomplete, nobody is submitter (jobs are
+    still unsubmitted because of max-nodes or dependencies and the user has not run the recovery yet).  k = after how many
+    recovery rounds (0: at the first quiet moment)."""
+    r = Run(scn, seed, debug=debug)
+    try:
+        r.submit()
+        r.drain()
+        for _ in range(k):
+            st = r.status()
+            if st is None or st["complete"]:
+                break
+            r.recoveries += 1
+            r.user("try-submit-jobs", r.w.out)
+            r.drain()
+        if complete_ids:
+            # the ended batches' ids are removed from the job status first (JobRunner._complete_hpc_job's steps, through
+            # the public Cluster API): cancel-jobs then finds no HPC job id at all, and unsubmitted jobs
+            p = r.w.spawn(kind="api", module="harness.drivers.cluster", func="complete_ids", host="login",
+                          args={"out": r.w.out}, label="complete-ids")
+            r.drain()
+        r.user("cancel-jobs", r.w.out)
+        r.drain()
+        for argv in after:
+            r.user(*[a.replace("{out}", r.w.out) for a in argv])
+            r.drain()
+        r.w.ev(e="end", recoveries=r.recoveries, full=False)
+    finally:
+        tr = r.finish()
+    return tr
+
+
 def run_resubmit(scn, seed, flag_sets, debug=False):
     """Run a submission to completion, then resubmit-jobs (once per entry of flag_sets), each followed by the recovery."""
     r = Run(scn, seed, debug=debug)
